@@ -710,10 +710,12 @@ Proof.
       assert (count_inner P = ti) as E by lia.
       rewrite E, Nat.eqb_refl. eexists. split; [reflexivity|].
       cbn [fprofile]. destruct F as [|x F0]; [congruence|].
-      cbn [flat_map] in HF'. fold (flat_map kids (x :: F0)) in HF'.
-      change (flat_map kids (x :: F0)) with (kids x ++ flat_map kids F0). rewrite HF', fprofile_nil.
-      cbn [cumul app]. rewrite <- E. f_equal; [f_equal; [f_equal|]|]; try lia.
-      f_equal. f_equal; [f_equal|]; cbn [length] in *; lia.
+      change (flat_map kids (x :: F0)) with F'. rewrite HF', fprofile_nil.
+      cbn [cumul app]. cbn [length] in *.
+      repeat match goal with
+             | |- (_, _) = (_, _) => apply f_equal2
+             | |- _ :: _ = _ :: _ => apply f_equal2
+             end; try reflexivity; lia.
     + (* there is an inner node on this level *)
       assert (count_inner P <> ti) as Hne by lia.
       destruct (Nat.eqb_spec (count_inner P) ti) as [|_]; [congruence|].
@@ -742,7 +744,7 @@ Proof.
       { rewrite <- Htf. apply (fcs_first F (base + length F) Hfc); [rewrite Hids; apply seq_sorted|exact HtF'|exact Hinner|].
         intros t' Ht' Hi'. rewrite Hti'. apply Hmin; [apply HFn; exact Ht'|].
         unfold cand. rewrite Hi'. cbn. apply Nat.leb_le. specialize (HFid t' Ht'). lia. }
-      subst fc.
+      rewrite Hfcv. clear Htf Hfcv fc.
       assert (F' <> []) as HF'ne.
       { pose proof (HK x (HFn x HxF) Hxi) as Hk. unfold F'. intros E.
         apply in_split in HxF. destruct HxF as (l1 & l2 & ->). rewrite flat_map_app in E. cbn [flat_map] in E.
@@ -756,6 +758,92 @@ Proof.
       * lia.
       * rewrite Hout. cbn [bind]. eexists. split; [reflexivity|].
         cbn [app]. rewrite Heq. destruct (count_app P F) as [Hc1 Hc2]. rewrite Hc1, Hc2.
-        cbn [fprofile]. destruct F as [|x0 F0]; [congruence|]. fold F'. cbn [cumul].
-        f_equal; [f_equal; [f_equal|]; lia|]. f_equal. f_equal; [f_equal|]; lia.
+        cbn [fprofile]. destruct F as [|x0 F0]; [congruence|]. fold F'. cbn [cumul]. cbn [length] in *.
+        repeat match goal with
+               | |- (_, _) = (_, _) => apply f_equal2
+               | |- _ :: _ = _ :: _ => apply f_equal2
+               end; try reflexivity; try lia.
+Qed.
+
+(* ---------- the per-depth counts of a forest are the profile ---------- *)
+Definition profile_forest (F : list tree) : list (nat * nat) :=
+  fold_right (fun t acc => zip_add (profile t) acc) [] F.
+
+Lemma zip_add_nil_r a : zip_add a [] = a.
+Proof. destruct a as [|[i l] a]; reflexivity. Qed.
+
+Lemma zip_add_assoc : forall a b c, zip_add (zip_add a b) c = zip_add a (zip_add b c).
+Proof.
+  induction a as [|[i1 l1] a IH]; intros b c; [reflexivity|].
+  destruct b as [|[i2 l2] b]; [reflexivity|]. destruct c as [|[i3 l3] c]; [reflexivity|].
+  cbn [zip_add]. rewrite IH. f_equal. f_equal; lia.
+Qed.
+
+Lemma profile_forest_app A B : profile_forest (A ++ B) = zip_add (profile_forest A) (profile_forest B).
+Proof.
+  induction A as [|t A IH]; [reflexivity|]. cbn [app profile_forest fold_right].
+  fold (profile_forest (A ++ B)). fold (profile_forest A). rewrite IH, zip_add_assoc. reflexivity.
+Qed.
+
+Lemma profile_kids_forest ch : profile_kids ch = profile_forest (map snd ch).
+Proof.
+  induction ch as [|[x c] r IH]; [reflexivity|]. cbn [profile_kids fold_right map snd profile_forest].
+  fold (profile_kids r). fold (profile_forest (map snd r)). rewrite IH. reflexivity.
+Qed.
+
+Lemma profile_hd t :
+  profile t = ((if is_inner t then 1 else 0), (if is_inner t then 0 else 1)) :: profile_forest (kids t).
+Proof.
+  destruct t as [id ord tail eidx|id big step pfx fc ch]; [reflexivity|].
+  rewrite profile_inner, profile_kids_forest. reflexivity.
+Qed.
+
+Lemma count_cons t L :
+  count_inner (t :: L) = (if is_inner t then 1 else 0) + count_inner L /\
+  count_leaf (t :: L) = (if is_inner t then 0 else 1) + count_leaf L.
+Proof. unfold count_inner, count_leaf. cbn [filter]. destruct (is_inner t); cbn; auto. Qed.
+
+Lemma profile_forest_step F : F <> [] ->
+  profile_forest F = (count_inner F, count_leaf F) :: profile_forest (flat_map kids F).
+Proof.
+  induction F as [|t F IH]; [congruence|]. intros _.
+  cbn [profile_forest fold_right]. fold (profile_forest F). rewrite profile_hd.
+  destruct (count_cons t F) as [H1 H2]. rewrite H1, H2.
+  destruct F as [|t' F'].
+  - cbn [profile_forest fold_right flat_map]. rewrite zip_add_nil_r, app_nil_r.
+    unfold count_inner, count_leaf. cbn [filter length]. rewrite !Nat.add_0_r. reflexivity.
+  - rewrite IH by discriminate. cbn [zip_add]. cbn [flat_map]. fold (flat_map kids (t' :: F')).
+    change (kids t' ++ flat_map kids F') with (flat_map kids (t' :: F')).
+    rewrite (profile_forest_app (kids t) (flat_map kids (t' :: F'))). reflexivity.
+Qed.
+
+Lemma fprofile_forest : forall n base F, bfs_ok n base F -> fprofile n F = profile_forest F.
+Proof.
+  induction n as [|n IH]; intros base F H.
+  - cbn in H. subst F. reflexivity.
+  - destruct H as (_ & _ & H3). cbn [fprofile]. destruct F as [|t F0]; [reflexivity|].
+    rewrite profile_forest_step by discriminate. rewrite (IH _ _ H3). reflexivity.
+Qed.
+
+Theorem levels_walk_ok o keys vals T :
+  build o keys vals = Ok T -> levels_walk T = Ok (levels T).
+Proof.
+  intros Hb. destruct (build_ok _ _ _ _ Hb) as [[-> ->]|(r & lidx & B)]; [reflexivity|].
+  pose proof (bt_root _ _ _ _ _ _ B) as Hr.
+  destruct (built_bfs _ _ _ _ Hb r Hr) as (n & HB).
+  unfold levels_walk, levels. rewrite Hr. cbv zeta. rewrite all_nodes_subtrees.
+  pose proof (subtrees_forest_bfs _ _ _ HB) as HP. cbn [flat_map] in HP. rewrite app_nil_r in HP.
+  assert (forall t, In t (subtrees r) -> is_inner t = true -> kids t <> []) as HK.
+  { intros t Ht Hi.
+    assert (has_kids r) as Hh.
+    { eapply trie_of_has_kids; [exact (bt_trie _ _ _ _ _ _ B)|].
+      apply root_inv; [exact (bt_sorted _ _ _ _ _ _ B)|exact (bt_nonempty _ _ _ _ _ _ B)]. }
+    pose proof (has_kids_sub r t Hh Ht) as Hht.
+    destruct t as [|id big step pfx fc ch]; [discriminate|]. apply has_kids_inner in Hht. destruct Hht as [Hne _].
+    rewrite kids_inner. destruct ch; [congruence|discriminate]. }
+  destruct (walk_levels_ok n 0 [r] [] (subtrees r) (count_inner (subtrees r)) (length (subtrees r)) HB)
+    as (out & Hout & Heq); try reflexivity; try discriminate; try assumption; try lia.
+  { intros t []. }
+  fold (count_inner (subtrees r)). rewrite Hout. cbn [bind]. rewrite Heq.
+  rewrite (fprofile_forest _ _ _ HB). cbn [profile_forest fold_right]. rewrite zip_add_nil_r. reflexivity.
 Qed.
